@@ -220,7 +220,7 @@ var shapes = map[string][]shape{
 		{name: "return-value", lines: []string{`return 5`}},
 		{name: "bad-operator", lines: []string{`x$ := 5 $$ 3`, `@assert x$ == 3`}, declFirst: true},
 		{name: "if-without-condition", lines: []string{`if {`, `}`}},
-		{name: "for-missing-init", lines: []string{`for i := {`, `}`}},
+		{name: "for-missing-init", lines: []string{`for i := {`, `}`}, declFirst: true},
 		{name: "empty-assert", lines: []string{`@assert`}},
 		{name: "bad-function-literal", lines: []string{`f$ := func( {`, `}`, `f$()`}, declFirst: true},
 		{name: "error-after-good-statements", lines: []string{`v$ := 3`, `@assert v$ == 3`, `w$ := (1 +`, `@assert w$ == 3`}, declFirst: true},
@@ -302,8 +302,8 @@ func setup() {
 		if bin == "" {
 			bin = filepath.Join(vkit.Root(), ".bin")
 		}
-		egoBin = filepath.Join(bin, "ego")
-		if _, err := os.Stat(egoBin); err != nil {
+		realBin := filepath.Join(bin, "ego")
+		if _, err := os.Stat(realBin); err != nil {
 			setupErr = fmt.Errorf("ego binary: %v", err)
 			return
 		}
@@ -317,10 +317,17 @@ func setup() {
 		root := filepath.Join(base, fmt.Sprintf("c13-%d-%d", vkit.ShardIndex(), os.Getpid()))
 		homeDir = filepath.Join(root, "home")
 		workDir = filepath.Join(root, "work")
-		for _, d := range []string{homeDir, workDir} {
+		for _, d := range []string{homeDir, workDir, filepath.Join(root, "bin")} {
 			if setupErr = os.MkdirAll(d, 0o755); setupErr != nil {
 				return
 			}
+		}
+		// ego takes the directory of argv[0] as its default ego path (where it
+		// would unpack its library): run it through a link inside the scratch
+		// directory so that nothing can be written next to the real binary.
+		egoBin = filepath.Join(root, "bin", "ego")
+		if setupErr = os.Symlink(realBin, egoBin); setupErr != nil {
+			return
 		}
 		// first use: lets the binary create its profile (and unpack whatever it
 		// wants) in the scratch home once, outside any judged case.
@@ -329,8 +336,10 @@ func setup() {
 }
 
 func egoEnv() []string {
-	env := []string{"HOME=" + homeDir, "EGO_PATH=" + homeDir, "PATH=/usr/bin:/bin", "LANG=C", "EGO_LANG=en"}
-	return env
+	// PATH is empty on purpose: at start-up ego asks gopsutil for the host
+	// description, which runs /usr/bin/lsb_release (a shell script spawning
+	// seven more processes) when it is found.
+	return []string{"HOME=" + homeDir, "EGO_PATH=" + filepath.Dir(egoBin), "PATH=/nonexistent", "LANG=C", "EGO_LANG=en"}
 }
 
 // egoTest runs `ego test FILE` on a file holding src.
@@ -526,7 +535,7 @@ func oracle(c Case) vkit.Outcome {
 		switch {
 		case nf == 1 && np == 0:
 		case np > 0:
-			return fail(fmt.Sprintf("failing test reported (PASS) kind=%s shape=%s style=%s", b.Kind, b.Shape, b.Style),
+			return fail(fmt.Sprintf("failing test reported (PASS) kind=%s", b.Kind),
 				fmt.Sprintf("one (FAIL) line for test %q", testName(i, b.Name)))
 		case nf > 1:
 			return fail("test reported more than once kind="+b.Kind, fmt.Sprintf("exactly one status line for test %q", testName(i, b.Name)))
@@ -602,26 +611,46 @@ func gen(t *rapid.T) Case {
 	return c
 }
 
-// fixed: every shape in both styles, four to a file, each followed by a
-// passing test (alternately printing), so that each shape is known to behave
-// as its kind says before the random search mixes them.
+// fixed: every shape in both styles, so that each shape is known to behave as
+// its kind says before the random search mixes them. Passing shapes go eight to
+// a file; failing shapes four to a file, each followed by a passing test
+// (alternately printing); bare-style compile errors get a file of their own
+// (pass, X, pass) because one of them can take the whole file down and would
+// hide its neighbours.
 func fixed() []Case {
-	var insts []Block
-	for _, k := range kinds {
-		for _, s := range shapes[k] {
-			insts = append(insts, Block{Kind: k, Shape: s.name, Style: "braced", Print: len(insts)%2 == 0})
-			if !s.noBare {
-				insts = append(insts, Block{Kind: k, Shape: s.name, Style: "bare", Print: len(insts)%2 == 1, Name: 1})
+	var cases []Case
+	group := func(insts []Block, per int, interleave bool) {
+		for i := 0; i < len(insts); i += per {
+			var c Case
+			if !interleave && per == 1 {
+				c.Blocks = append(c.Blocks, Block{Kind: "pass", Shape: "assert-true", Style: "braced"})
 			}
+			for j := i; j < i+per && j < len(insts); j++ {
+				c.Blocks = append(c.Blocks, insts[j])
+				if interleave || per == 1 {
+					c.Blocks = append(c.Blocks, Block{Kind: "pass", Shape: "assert-eq", Style: "braced", Print: j%2 == 0, Name: j % 3})
+				}
+			}
+			cases = append(cases, c)
 		}
 	}
-	var cases []Case
-	for i := 0; i < len(insts); i += 4 {
-		var c Case
-		for j := i; j < i+4 && j < len(insts); j++ {
-			c.Blocks = append(c.Blocks, insts[j], Block{Kind: "pass", Shape: "assert-eq", Style: "braced", Print: j%2 == 0, Name: j % 3})
+	for _, k := range kinds {
+		var braced, bare []Block
+		for n, s := range shapes[k] {
+			braced = append(braced, Block{Kind: k, Shape: s.name, Style: "braced", Print: n%2 == 0, Name: n % 3})
+			if !s.noBare {
+				bare = append(bare, Block{Kind: k, Shape: s.name, Style: "bare", Print: n%2 == 1, Name: (n + 1) % 3})
+			}
 		}
-		cases = append(cases, c)
+		switch k {
+		case "pass":
+			group(append(braced, bare...), 8, false)
+		case "compile":
+			group(braced, 4, true)
+			group(bare, 1, false)
+		default:
+			group(append(braced, bare...), 4, true)
+		}
 	}
 	return cases
 }
